@@ -271,3 +271,18 @@ ob(name='guards.clause_type_state', kind='FC', props=['C19'], unit=None, run=sf.
 ob(name='macros.long_macros_prefix', kind='SF', props=['C19'], unit=None, run=sf.run_macros,
    bound='exact for the configuration compiled: trompeloeil.hpp, -std=c++14 (thorough: +17, +20); framework adapter headers not included (their frameworks are not installed)')
 LEVELS['C19'] = 'proof'
+
+# ----------------------------------------------------------------------------------------------
+# unit print: value printing (C18, partial)
+UNITS['print'] = {
+    'opaque': [], 'dyn_types': [],
+    'roots': {'PRINT_INT': '5printIiEEvRSoRKT_', 'PRINT_CSTR': '5printIPKcEEvRSoRKT_', 'PRINT_PTR': '5printIPiEEvRSoRKT_', 'PRINT_NULLPTR': '5printERSoDn',
+              'PRINT_S': '5printIN14vp_trompeloeil4vp_SEEEvRSoRKT_', 'PRINT_B1': '5printIN14vp_trompeloeil5vp_B1EEEvRSoRKT_',
+              'PRINT_B9': '5printIN14vp_trompeloeil5vp_B9EEEvRSoRKT_', 'PRINT_B17': '5printIN14vp_trompeloeil6vp_B17EEEvRSoRKT_'},
+}
+for e in ('p_int', 'p_cstr', 'p_ptr', 'p_nullptr'):
+    ob(name='print.%s' % e[2:], kind='FC+', props=['C18'], unit='print', harness='h_print.c', entry=e, unwind=4, bound='none: loop-free, every prior stream state')
+for e, sz in (('p_struct1', 1), ('p_struct4', 4), ('p_struct9', 9), ('p_struct17', 17)):
+    ob(name='print.hexdump_%d_bytes' % sz, kind='FC+', props=['C18'], unit='print', harness='h_print.c', entry=e, unwind=26,
+       bound='object size fixed by the type (sizeof = %d): the byte loop has a concrete bound; all byte values and every prior stream state symbolic' % sz)
+LEVELS['C18'] = 'proof'
